@@ -35,3 +35,15 @@ func verifIsExpression(n Node) bool { return n.IsExpression() }
 //@ trusted
 //@ modifies nothing
 //@ ensures result1 == s.value
+
+// ---- C05: map literals are enumerated in source order -------------------------------------------------------
+// sort.SliceStable takes its slice as interface{} and a comparison callback: outside the subset. Assumed:
+// the result holds each key of the literal exactly once.
+//@ func (*Map).SortedKeys
+//@ trusted
+//@ modifies nothing
+//@ ensures len(result) == len(m.items) && fresh(result) && forall(j, 0, len(result), result[j] != nil && haskey(m.items, result[j]))
+
+// Dispositions of the map-range loops of this package: (*Map).SortedKeys#1 feeds a slice that is sorted by
+// source position (a total order on the keys of one literal) before it is used.
+//@ scan[C05.maploops.ast] C05 maprange ast: (*Map).SortedKeys#1
